@@ -19,6 +19,9 @@ NOT_ARCHIVED_FIELDS = {("RawValue", "parsed"): "lazy parse cache, #[with(rkyv::w
 
 def check(ctx):
     F = ctx.facts("prod")
+    from props import C26
+    ctx.clause("R-TABLE Serialize for JValue: per-variant serializer table, numbers delegated to Number::serialize (the bytes that are hashed / encoded)")
+    C26.serialize_table(ctx, F)
     ctx.clause("R-SIBLING RmpSerdeMultiformat: same codec constant and inner format in to_vec / from_slice / to_writer; named msgpack on both sides")
     ctx.clause("R-OP/R-GUARD decode_multiformat: Err(Codec) iff data_codec != expected_codec, dominating from_slice")
     ctx.clause("R-SIBLING every Representation impl uses its own Format for all directions")
